@@ -107,7 +107,9 @@ def classify(c):
         return "broken"
     d = _diff(c)
     if d == "accepted-reserved":
-        return "broken"
+        # the interpreter's decoder is strict; words the lifter accepts although the manual reserves them are
+        # reviewed by hand and listed here (anything else means the decoder is incomplete: broken correspondence)
+        return "ok" if c.cls.split("/")[1] in REVIEWED_LAX else "broken"
     if d is not None:
         return "violation"
     m, mir = _model(c)
@@ -125,6 +127,10 @@ def classify(c):
 def signature(c):
     parts = c.cls.split("/")
     arch, mn = parts[0], parts[1] if len(parts) > 1 else "?"
+    if arch == "mipsel":
+        arch = "mips*"          # one signature for both byte orders unless the defect is byte-order specific
+    elif arch == "mips":
+        arch = "mips*"
     d = _diff(c)
     if d is not None:
         return f"C02/{arch}/{mn}/{d}"
@@ -153,6 +159,18 @@ def extra_coverage():
     }
 
 
+# capstone decodes SYNC (SPECIAL, funct 0x0f) without checking that bits 25..11 are zero, as the manual requires;
+# falcon lifts such a reserved word as a nop
+REVIEWED_LAX = {"sync"}
+
 # filled in to match lean/FalconProofs/Props/C02.lean
-PROVED_A = []
-UNPROVED = []
+PROVED_A = [
+    "mips/mipsel: addu subu and or xor nor (incl. move/negu) ; sll srl sra nop ; sllv srlv srav ; addiu andi ori xori ; lui ; "
+    "slt sltu slti sltiu ; lb lbu lh lhu lw ; sb sh sw -- lift_correct_single: all fields, all states",
+    "mips/mipsel: beq bne bgez bgtz blez bltz b j with any of the above in the delay slot -- lift_correct_pair",
+]
+UNPROVED = [
+    "mips/mipsel (differential only): add addi sub, mult multu div divu madd maddu msub msubu mul, mfhi mflo mthi mtlo, movn movz, "
+    "clz clo, lwl lwr swl swr ll sc pref sync, teq syscall break rdhwr, jr jal jalr bal bgezal bltzal",
+    "ppc (differential only): every accepted mnemonic",
+]
